@@ -1,6 +1,6 @@
-"""C10 – session message queue (memory back-end): bounded, FIFO, conserving, drops by the documented priority,
+"""C10 – session message queue (memory and redis back-ends): bounded, FIFO, conserving, drops by the documented priority,
 counters equal contents.  Queue.tla is checked against its design-level obligations by TLC; then TLC enumerates
-every (state, operation) pair per configuration and each one is replayed on a fresh mem.New queue with a recording
+every (state, operation) pair per configuration and each one is replayed on a fresh mem.New / redis.New queue with a recording
 Notifier (result, Notifier calls, probe sequence); see DESIGN.md §C10, App. B.1.
 
   ./check C10 quick|thorough            VERIF_SEED selects menus / in-flight expiry settings / capacities
@@ -15,6 +15,19 @@ LEVEL = "model_checking"
 def mk(name, mx, ie, nmsg, rdmax=2):
     return {"name": name, "menu": queue_lib.MENUS[name], "max": mx, "ie": ie, "nmsg": nmsg, "ids": [1, 2, 3],
             "rdmax": rdmax, "rins": [1, 2]}
+
+
+def mkredis(name, mx, ie, nmsg, reinit="new"):
+    """redis back-end over the in-process RESP fake; re-initialisation = a new Queue object on the same key (reinit=new, what a
+    restarted broker / the next connection does) or the same object; ladder rule 1 in its literal reading (any expired
+    in-flight entry), which is the one redis.go follows"""
+    c = mk(name, mx, ie, nmsg)
+    c.update(target="redis", reinit=reinit, rule1="any")
+    return c
+
+
+# redis, capacity 2, 3 messages (measured): 6 000 (size/off) .. 30 000 transitions; 4 messages: 27 000 .. 62 000
+REDIS_QUICK = [("expiry0", "instant"), ("size", "off"), ("rel", "instant"), ("expiry0", "never"), ("size", "instant")]
 
 
 # measured on the unchanged tree (transitions emitted, ids 1..3, ReadInflight(1|2)):
@@ -38,6 +51,8 @@ def plan(tier, seed):
             tc.append(mk(n, 2, ies[(seed + k) % 3], 4))
         n3, ie3 = SMALL3[seed % len(SMALL3)]
         tc.append(mk(n3, 3, ie3, 4))
+        rn, rie = REDIS_QUICK[seed % len(REDIS_QUICK)]
+        tc.append(mkredis(rn, 2, rie, 3))
         design = [mk(names[seed % len(names)], 2, ies[seed % 3], 3)]      # 3 messages: ~10^5 transitions
         return design, tc
     tc, design = [], []
@@ -52,7 +67,23 @@ def plan(tier, seed):
         tc.append(mk("rel", 3, ie, 5))
     big = [n for n in names if n != "rel"]
     tc.append(mk(big[seed % len(big)], 3, ["off", "never"][seed % 2], 5))     # "instant" at this size: > 1.5 million
+    # redis: every menu and setting with 3 messages (new object per Init), two menus with 4 messages, and a seed-chosen
+    # third of the small ones again with Init on the same object
+    for i, n in enumerate(names):
+        for j, ie in enumerate(ies):
+            tc.append(mkredis(n, 2, ie, 3))
+            if (i + j + seed) % 3 == 0:
+                tc.append(mkredis(n, 2, ie, 3, reinit="same"))
+    for ie in ies:
+        tc.append(mkredis("expiry0", 2, ie, 4))
+        tc.append(mkredis("rel", 2, ie, 4))
+    design.append(dict(mk(names[(seed + 2) % len(names)], 2, "instant", 4), rule1="any"))
     return design, tc
+
+
+def sig_of(cfg, sig):
+    """signatures of the redis back-end are distinct from those of the memory back-end (same shapes, different code)"""
+    return sig if cfg.get("target", "mem") == "mem" else "redis:" + sig
 
 
 def replay(ctx):
@@ -60,7 +91,8 @@ def replay(ctx):
         obj = json.load(fh)
     cfg = obj["config"]
     bindir = ctx.go_build(["./cmd/queuemem"])
-    cmd = [os.path.join(bindir, "queuemem"), "-max", str(cfg["max"]), "-ie", cfg["ie"], "-raw", "-v", "-workers", "1"]
+    cmd = [os.path.join(bindir, "queuemem"), "-max", str(cfg["max"]), "-ie", cfg["ie"], "-raw", "-v", "-workers", "1",
+           "-target", cfg.get("target", "mem"), "-reinit", cfg.get("reinit", "new")]
     r = subprocess.run(cmd, input=json.dumps(obj["transition"]) + "\n", stdout=subprocess.PIPE, stderr=subprocess.PIPE, text=True, timeout=60)
     vlib.log("[C10] replay of %s (%s)" % (ctx.replay, obj.get("history", "")))
     for l in r.stderr.splitlines():
@@ -70,8 +102,9 @@ def replay(ctx):
         o = json.loads(l)
         if o["kind"] == "div":
             n += 1
-            ctx.violation(o["what"], {"signature": o["signature"], "kind": "queue-transition", "config": cfg,
-                                      "transition": o.get("line"), "history": o.get("extra", {}).get("history"), "target": "mem"})
+            ctx.violation(o["what"], {"signature": sig_of(cfg, o["signature"]), "kind": "queue-transition", "config": cfg,
+                                      "transition": o.get("line"), "history": o.get("extra", {}).get("history"),
+                                      "target": cfg.get("target", "mem")})
     ctx.cov["rule"] = "replay of one stored transition"
     ctx.cov["evaluations"] = 1
     ctx.cov["traces_validated_against_impl"] = 1
@@ -86,19 +119,22 @@ def run(ctx):
         "its design-level obligations (length <= max; counters = contents; one fate per message, forward only; FIFO and id "
         "assignment of every Read; nothing expired/oversize handed out; the drop ladder stated independently of DoAdd; replay "
         "after Init(not clean) = the in-flight entries with their ids).  Then every (state, operation) pair reachable within "
-        "the bound is replayed on a fresh real mem.New queue (prefix = BFS path) and compared: value/error returned, "
+        "the bound is replayed on a fresh real mem.New (or redis.New over the RESP fake) queue (prefix = BFS path) and compared: value/error returned, "
         "Notifier drops with reasons, sums of the Notifier deltas, expiry class of returned elements, and the probe "
         "Close; Init(not clean); ReadInflight until empty; Read(8 ids) while the model says something is unread.  "
         "Transitions whose prefix already diverged in a returned value or drop are skipped (that divergence is reported by "
         "the transition whose operation it is).  non-trivial = non-empty prefix")
     ctx.assumptions += [
-        "memory back-end only (redis back-end: separate driver)",
+        "memory back-end (mem.New) and redis back-end (redis.New over the in-process RESP fake verifharness/resp, whose command "
+        "semantics are part of the trusted base); redis: re-initialisation on a new Queue object over the same key, or on the same object",
         "bounded: capacity 2..3, at most 4..5 added messages, packet ids 1..3, id lists of length <= 2..3, ReadInflight(1|2)",
         "operation sequences inside the documented usage protocol: Read only after a ReadInflight returned nothing since the "
         "last Init and only when it would not block; Remove/Replace only for ids handed out since the last Init (Replace only "
         "for a QoS2 PUBLISH); Init only after Close; ids supplied to Read are distinct and not in flight; Add elements are PUBLISH",
         "time is not advanced: Expiry 24h in the past / 24h in the future / zero; InflightExpiry 0 / 1ns / 1h; oversize = payload 3x ReadBytesLimit",
-        "drop ladder rung 1 is demanded only for the oldest entry (weakest reading of 'an expired in-flight entry'); which of several "
+        "drop ladder rung 1: an implementation may inspect only the oldest entry (weakest reading of 'an expired in-flight entry', what "
+        "mem does) or sacrifice the first expired in-flight entry wherever it is (literal reading, what redis does); each back-end is "
+        "checked against the reading it follows; which of several "
         "expired / QoS0 queued messages is sacrificed: the first; Init(clean) owes counter deltas but no per-message drop report",
         "Read examines at most len(ids) elements (dropped ones included), as the interface comment 'batch <= id list' allows",
     ]
@@ -132,16 +168,19 @@ def run(ctx):
         summary, divs, rec = r
         for k, v in summary["counters"].items():
             if k.startswith("div:"):
-                counts[k[4:]] = counts.get(k[4:], 0) + v
+                counts[sig_of(cfg, k[4:])] = counts.get(sig_of(cfg, k[4:]), 0) + v
         for d in divs:
             steps = d.get("extra", {}).get("steps", 999)
-            cur = best.get(d["signature"])
+            sig = sig_of(cfg, d["signature"])
+            cur = best.get(sig)
             if cur is None or steps < cur[0]:
-                best[d["signature"]] = (steps, d, cfg)
+                best[sig] = (steps, d, cfg)
     ctx.cov["divergence_signatures"] = {k: counts[k] for k in sorted(counts)}
     for sig in sorted(best):
         steps, d, cfg = best[sig]
-        ctx.violation(d["what"], {"signature": sig, "kind": "queue-transition", "config": cfg, "transition": d.get("line"),
-                                  "history": d.get("extra", {}).get("history"), "occurrences": counts.get(sig), "target": "mem"},
+        what = d["what"] if cfg.get("target", "mem") == "mem" else "[redis back-end] " + d["what"]
+        ctx.violation(what, {"signature": sig, "kind": "queue-transition", "config": cfg, "transition": d.get("line"),
+                             "history": d.get("extra", {}).get("history"), "occurrences": counts.get(sig),
+                             "target": cfg.get("target", "mem")},
                       name="".join(c if c.isalnum() else "_" for c in sig)[:80])
     ctx.cov["exhaustive"] = True
